@@ -388,25 +388,100 @@ def peq(a, b):
 
 
 FLIP = {"Lt": "Gt", "Le": "Ge", "Gt": "Lt", "Ge": "Le", "Eq": "Eq", "Ne": "Ne"}
-NEG = {"Lt": "Ge", "Le": "Gt", "Gt": "Le", "Ge": "Lt", "Eq": "Ne", "Ne": "Eq"}
+NEG = {"Lt": "Ge", "Le": "Gt", "Gt": "Le", "Ge": "Lt", "Eq": "Ne", "Ne": "Eq"}   # on canonical guards only Ge/Lt and Eq/Ne occur
+
+
+def _lead(d):
+    """coefficient of the first non-constant monomial in key order (None for a constant polynomial)"""
+    for m, c in pkey(d):
+        if m:
+            return c
+    return None
+
+
+def cmp_canon(d, op):
+    """Canonical form of `d op 0` over the integers: ops are Eq, Ne, Ge (d >= 0) and Lt (d < 0); strict and non-strict forms
+    are folded (d > 0 is d - 1 >= 0, d <= 0 is d - 1 < 0) and the sign is fixed so that the first non-constant monomial has a
+    positive coefficient.  Ge and Lt of the same polynomial are each other's negation."""
+    d = dict(d)
+    one = {(): 1}
+    if op == "Gt":
+        d, op = padd(d, one, -1), "Ge"
+    elif op == "Le":
+        d, op = padd(d, one, -1), "Lt"
+    lc = _lead(d)
+    if lc is not None and lc < 0:
+        neg = {m: -c for m, c in d.items()}
+        if op == "Ge":          # d >= 0  <=>  -d <= 0  <=>  -d - 1 < 0
+            d, op = padd(neg, one, -1), "Lt"
+        elif op == "Lt":        # d < 0   <=>  -d > 0   <=>  -d - 1 >= 0
+            d, op = padd(neg, one, -1), "Ge"
+        else:
+            d = neg
+    return (pkey(d), op)
 
 
 def cmp_nf(t, truth=True):
-    """Canonical form of comparison term t (already normalised) being `truth`:
-    returns (pkey(lhs - rhs), op) with the sign fixed so that the first monomial has a
-    positive coefficient, or None if t is not a comparison."""
+    """Canonical form of comparison term t (already normalised) being `truth`, or None if t is not a comparison."""
     if not (isinstance(t, tuple) and t[0] == "bin" and t[1] in FLIP):
         if isinstance(t, tuple) and t[0] == "un" and t[1] == "Not":
             return cmp_nf(t[2], not truth)
         return None
     op = t[1] if truth else NEG[t[1]]
     d = padd(poly(t[2]), poly(t[3]), -1)
-    k = pkey(d)
-    if k and k[0][1] < 0:
-        d = {m: -c for m, c in d.items()}
-        k = pkey(d)
-        op = FLIP[op]
-    return (k, op)
+    return cmp_canon(d, op)
+
+
+def const_truth(k, op):
+    """truth value of a canonical comparison whose polynomial is a constant, else None"""
+    if any(m for m, c in k):
+        return None
+    v = k[0][1] if k else 0
+    return {"Eq": v == 0, "Ne": v != 0, "Ge": v >= 0, "Lt": v < 0, "Gt": v > 0, "Le": v <= 0}[op]
+
+
+def _nonneg(d):
+    return all(c >= 0 for c in d.values())
+
+
+def entails(guards, d, axioms=()):
+    """Does the conjunction of canonical guards (pkey, op) - with every atom a non-negative integer - entail d >= 0 ?
+    A small certificate search, no solver: d itself has no negative coefficient; or d - m*r has none for a hypothesis r >= 0
+    and a monomial m of d (or 1)."""
+    d = {m: c for m, c in d.items() if c}
+    if _nonneg(d):
+        return True
+    hyps = []
+    for k, op in list(guards) + list(axioms):
+        r = dict(k)
+        if op == "Ge":
+            hyps.append(r)
+        elif op == "Lt":                       # r < 0  <=>  -r - 1 >= 0
+            hyps.append(padd({m: -c for m, c in r.items()}, {(): 1}, -1))
+        elif op == "Eq":
+            hyps.append(r)
+            hyps.append({m: -c for m, c in r.items()})
+        elif op == "Ne":
+            # x != 0 for a single non-negative atom x  =>  x - 1 >= 0
+            ms = [m for m in r if m]
+            if len(ms) == 1 and len(r) == 1 and abs(r[ms[0]]) == 1:
+                hyps.append({ms[0]: 1, (): -1})
+    mults = [()] + [m for m in d if m]
+    for atoms in list(mults):
+        for a in atoms:
+            if (a,) not in mults:
+                mults.append((a,))
+    for r in hyps:
+        for m in mults:
+            mr = pmul({m: 1}, r) if m else r
+            if _nonneg({k: c for k, c in padd(d, mr, -1).items() if c}):
+                return True
+    # two hypotheses added up (e.g. i + w <= len and w >= 1)
+    for i, r1 in enumerate(hyps):
+        for r2 in hyps[i + 1:]:
+            if _nonneg({k: c for k, c in padd(padd(d, r1, -1), r2, -1).items() if c}):
+                return True
+    return False
 
 
 def mk_cmp(a, op, b):
